@@ -20,7 +20,7 @@ LEVEL = "exploration"
 RULE = (
     "two sources of vanilla subroutines: (a) host programs from the C05 grammar (gates inside loops/ifs, trailing labels) built "
     "by the real Builder without a compiler; (b) generated instruction lists in SDK idiom (set Qk id before every gate, "
-    "branches across gates, targets just past the end, counted loops, 1..4 qubits with electron = id 0, several Q registers); "
+    "branches across gates, targets just past the end or directly on a two-qubit gate (every qubit prepared in a state no gate leaves alone), counted loops, 1..4 qubits with electron = id 0, several Q registers); "
     "debug in {False, True}.  Non-trivial = a taken branch whose target lies after an expanded gate, or a two-qubit gate on a "
     "carbon-carbon placement, or an end label; distinct by program hash"
 )
@@ -44,8 +44,9 @@ def st_idiom(draw, allow_load_q=False):
     nq = draw(st.integers(1, 4))
     head = ["# NETQASM 0.0", "# APPID 0"]
     lines: List[str] = list(head) + ["array 6 @0"]
+    stored = [draw(st.integers(0, 2)) for _ in range(6)]
     for i in range(6):
-        lines.append(f"store {draw(st.integers(0, 2))} @0[{i}]")
+        lines.append(f"store {stored[i]} @0[{i}]")
     for q in range(nq):
         lines += [f"set Q0 {q}", "qalloc Q0", "init Q0"]
     # array @1 holds the qubit ids; one Q register (QL) is only ever written by `load` from it, as FutureQubit code does
@@ -169,7 +170,21 @@ def st_idiom(draw, allow_load_q=False):
                         post = [f"{draw(st.sampled_from(GATES1))} {rp}"]
                         info["cc"] = True
                         info["kept_across_if"] = True
-                out += pre + [f"load R1 @0[{draw(st.integers(0, 5))}]", f"{cond} R1 {draw(st.integers(0, 2))} {lab}"] + inside + block(depth + 1) + [f"{lab}:"] + post
+                body_if = None
+                if not keep and nq >= 3 and len(qregs) >= 3 and draw(st.integers(0, 1)) == 0:
+                    # the exit label sits directly on a two-qubit gate: its registers are set before the branch and the skipped
+                    # body (gates on another register) does not touch them
+                    ra_, rb_, rc_ = qregs[0], qregs[1], qregs[2]
+                    x, y = draw(st.sampled_from([(1, 2), (2, 1), (1, 2), (2, 1), (0, 1), (2, 0)]))
+                    pre = [f"set {ra_} {x}", f"set {rb_} {y}"]
+                    body_if = []
+                    for _k in range(draw(st.integers(1, 2))):
+                        body_if += [f"set {rc_} {draw(st.integers(0, nq - 1))}", f"{draw(st.sampled_from(GATES1))} {rc_}"]
+                    post = [f"{draw(st.sampled_from(['cnot', 'cphase']))} {ra_} {rb_}"]
+                    if x != 0 and y != 0:
+                        info["cc"] = True
+                    info["label_on_two_qubit_gate"] = True
+                out += pre + [f"load R1 @0[{draw(st.integers(0, 5))}]", f"{cond} R1 {draw(st.integers(0, 2))} {lab}"] + inside + (body_if if body_if is not None else block(depth + 1)) + [f"{lab}:"] + post
             elif loop_regs:
                 info["loops"] += 1
                 r = loop_regs.pop()
@@ -205,6 +220,25 @@ def st_idiom(draw, allow_load_q=False):
             body += [f"{draw(st.sampled_from(GATES1))} {r}"]
         info["cc"] = True
         info["full16"] = True
+    elif nq >= 3 and len(qregs) >= 3 and draw(st.integers(0, 7)) == 0:
+        # a conditional whose exit label sits directly on a carbon-carbon gate (registers set before the branch, the skipped
+        # body works on a third register); the branch is taken in most of these programs
+        ra_, rb_, rc_ = qregs[0], qregs[1], qregs[2]
+        x, y = draw(st.sampled_from([(1, 2), (2, 1)]))
+        cell = draw(st.integers(0, 5))
+        lab = new_label("IF_EXIT")
+        taken = draw(st.integers(0, 3)) > 0
+        body = gate_lines() if draw(st.booleans()) else []
+        for q_ in range(nq):
+            # every qubit in a state that no single gate of the set leaves alone
+            body += [f"set {rc_} {q_}", f"h {rc_}", f"t {rc_}"]
+        body += [f"set {ra_} {x}", f"set {rb_} {y}", f"load R1 @0[{cell}]", f"{'beq' if taken else 'bne'} R1 {stored[cell]} {lab}"]
+        for _k in range(draw(st.integers(1, 3))):
+            body += [f"set {rc_} {draw(st.integers(0, nq - 1))}", f"{draw(st.sampled_from(GATES1))} {rc_}"]
+        body += [f"{lab}:", f"{draw(st.sampled_from(['cnot', 'cphase']))} {ra_} {rb_}"] + (gate_lines() if draw(st.booleans()) else [])
+        info["cc"] = True
+        info["ifs"] += 1
+        info["label_on_two_qubit_gate"] = True
     elif stress:
         # many carbon-carbon gates in one subroutine
         body = []
@@ -234,7 +268,7 @@ def st_idiom(draw, allow_load_q=False):
         lines += [f"load R1 @0[0]", f"beq R1 {draw(st.integers(0, 2))} {lab}"] + gate_lines() + [f"{lab}:"]
         info["end_label"] = True
     outcomes = draw(st.lists(st.integers(0, 1), min_size=0, max_size=12))
-    return {"kind": "idiom", "text": "\n".join(lines) + "\n", "prologue": prologue, "outcomes": outcomes, "nq": nq, "debug": draw(st.booleans()), "info": info}
+    return {"kind": "idiom", "text": "\n".join(lines) + "\n", "prologue": prologue, "outcomes": outcomes, "nq": nq, "debug": draw(st.integers(0, 3)) > 0 if info.get("label_on_two_qubit_gate") else draw(st.booleans()), "info": info}
 
 
 class Declined(Exception):
@@ -397,7 +431,7 @@ def shard(ctx: Ctx) -> None:
             return
         i = case["info"]
         nt = i["cc"] or i["end_label"] or i["ifs"] > 0
-        labels = ["idiom", f"nq:{case['nq']}", "debug" if case["debug"] else "nodebug"] + [k for k in ("cc", "end_label", "stress", "label_at_0", "load_single", "full16", "sdk_mov", "same_index_classical_set", "realloc", "kept_across_if", "kept_across_loop") if i.get(k)] + (["loop"] if i["loops"] else []) + (["if"] if i["ifs"] else [])
+        labels = ["idiom", f"nq:{case['nq']}", "debug" if case["debug"] else "nodebug"] + [k for k in ("cc", "end_label", "stress", "label_at_0", "load_single", "full16", "sdk_mov", "same_index_classical_set", "realloc", "kept_across_if", "kept_across_loop", "label_on_two_qubit_gate") if i.get(k)] + (["loop"] if i["loops"] else []) + (["if"] if i["ifs"] else [])
         stt.case(str(case.get("prologue")) + case["text"] + str(case["outcomes"]) + str(case["debug"]), nt, labels, sample={"text": case["text"], "debug": case["debug"]} if len(case["text"]) < 700 else None)
 
     allow = KF_LOAD not in ctx.open_findings
